@@ -471,3 +471,47 @@ def locate_call(prog, body, name, depth=0):
     if len(via) == 1:
         return locate_call(prog, prog.bodies[via[0]], name, depth + 1)
     return body, []
+
+
+def check_requeue_whole(ctx, inst):
+    """a write entry taken out of the buffer leaves the flusher in one of two ways: published (C02.order: the publication loop
+    covers all of prepared_writes) or requeued. On every failure path of a record batch the *whole* of prepared_writes is
+    handed back: `prepared_writes.drain(..)` into the retry list, and the allocation clean-up sees the whole vector. An entry
+    that is dropped instead is written never; when it replaces a durable generation, that generation's retirement has already
+    been queued and now waits for a successor that will never become durable: every later flush() spins."""
+    n_dr = 0
+    for fn in ("write_buffer::process_write_batch", "write_buffer::failed_batch_outcome"):
+        b = ctx.fn(fn, inst)
+        if b is None:
+            continue
+        def on_pw(e):
+            nm = names_of(b, e) | origin_names(b, e)
+            return "prepared_writes" in nm or any(x.k == "arg" and x.extra[1] == "prepared_writes" for x in e.walk())
+        for n in b.calls():
+            if R.call_matches(n.ev, "Vec::drain") and on_pw(R.arg_expr(b, n, 0)):
+                n_dr += 1
+                a = R.arg_expr(b, n, 1)
+                ctx.check(a.k == "agg" and str(a.extra).endswith("RangeFull"), inst, "PIN", b.path,
+                          "prepared_writes is drained as a whole (`drain(..)`): no prepared write is left behind or dropped", b.where(n.id), {"range": a.show()[:60]})
+                # the drained entries go to the retry list
+                users = [m for m in b.calls() if R.call_matches(m.ev, "Extend::extend") and any(c.nid == n.id for c in R.arg_expr(b, m, 1).calls())]
+                ok = any("retry_entries" in (names_of(b, R.arg_expr(b, m, 0)) | origin_names(b, R.arg_expr(b, m, 0))) or
+                         any(x.k == "arg" and x.extra[1] == "retry_entries" for x in R.arg_expr(b, m, 0).walk()) for m in users)
+                ctx.check(ok, inst, "PROVENANCE", b.path, "the drained prepared writes are appended to the retry list", b.where(n.id))
+            if any(R.call_matches(n.ev, c) for c in ("write_buffer::release_allocations", "write_buffer::cleanup_failed_allocations", "write_buffer::quarantine_allocations",
+                                                      "write_buffer::failed_batch_outcome")):
+                for i, _a in enumerate(n.ev["args"]):
+                    e = R.arg_expr(b, n, i)
+                    if on_pw(e) and i <= 3 and not e.has_call("Iterator::map"):
+                        sliced = any(x.k == "call" and (path_matches(x.extra, "Index::index") or path_matches(x.extra, "IndexMut::index_mut") or
+                                                        path_matches(x.extra, "slice::get") or path_matches(x.extra, "split_at")) for x in e.walk())
+                        ctx.check(not sliced, inst, "PIN", b.path, "the failure clean-up is handed all of prepared_writes, not a sub-slice", b.where(n.id), {"arg": e.show()[:80]})
+    ctx.check(n_dr >= 2, inst, "anchor", "-", "drains of prepared_writes on failure paths (>= 2, found %d)" % n_dr, None)
+    b = ctx.fn("write_buffer::process_write_batch", inst)
+    if b is not None:
+        al = [n.id for n in b.calls() if R.call_matches(n.ev, "FreeSpaceManager::allocate_sectors")]
+        dr = [n.id for n in b.calls() if R.call_matches(n.ev, "Vec::drain") and "prepared_writes" in (names_of(b, R.arg_expr(b, n, 0)) | origin_names(b, R.arg_expr(b, n, 0)))]
+        for (sw, l) in R.guard_edges_for_call(b, al, "Err"):
+            r, ps = A.reach(b, edge_targets(b, sw, l), blocked_nodes=set(dr))
+            bad = [x for x in b.return_nodes() if x in r]
+            ctx.check(not bad, inst, "FOLLOW", b.path, "an allocation failure requeues the batch (drain of prepared_writes) before it returns", b.where(sw))
